@@ -21,6 +21,7 @@ from .values import (
     JSArrayBuffer,
     to_boolean,
     to_number,
+    to_integer_or_infinity,
     to_string,
     js_typeof,
 )
@@ -1938,51 +1939,55 @@ class VM:
     def _make_string_method(self, s: str, method: str) -> Any:
         """Create a bound string method."""
 
+        def index_arg(args, i, default=0):
+            # ToIntegerOrInfinity of argument i; `default` when it is absent or undefined
+            if len(args) > i and args[i] is not UNDEFINED:
+                return to_integer_or_infinity(args[i])
+            return default
+
+        def clamp(n):
+            # Confine an integer or infinite position to [0, len(s)]
+            return min(max(n, 0), len(s))
+
         def charAt(*args):
-            idx = int(to_number(args[0])) if args else 0
+            idx = index_arg(args, 0)
             if 0 <= idx < len(s):
                 return s[idx]
             return ""
 
         def charCodeAt(*args):
-            idx = int(to_number(args[0])) if args else 0
+            idx = index_arg(args, 0)
             if 0 <= idx < len(s):
                 return ord(s[idx])
             return float("nan")
 
         def indexOf(*args):
             search = to_string(args[0]) if args else ""
-            start = int(to_number(args[1])) if len(args) > 1 else 0
-            if start < 0:
-                start = 0
-            return s.find(search, start)
+            return s.find(search, clamp(index_arg(args, 1)))
 
         def lastIndexOf(*args):
             search = to_string(args[0]) if args else ""
-            end = int(to_number(args[1])) if len(args) > 1 else len(s)
+            # A position that converts to NaN means "search the whole string"
+            pos = to_number(args[1]) if len(args) > 1 else float("nan")
+            end = len(s) if math.isnan(pos) else clamp(to_integer_or_infinity(pos))
             # Python's rfind with end position
             return s.rfind(search, 0, end + len(search))
 
         def substring(*args):
-            start = int(to_number(args[0])) if args else 0
-            end = int(to_number(args[1])) if len(args) > 1 else len(s)
             # Clamp and swap if needed
-            if start < 0:
-                start = 0
-            if end < 0:
-                end = 0
+            start = clamp(index_arg(args, 0))
+            end = clamp(index_arg(args, 1, len(s)))
             if start > end:
                 start, end = end, start
             return s[start:end]
 
         def slice_fn(*args):
-            start = int(to_number(args[0])) if args else 0
-            end = int(to_number(args[1])) if len(args) > 1 else len(s)
-            # Handle negative indices
-            if start < 0:
-                start = max(0, len(s) + start)
-            if end < 0:
-                end = max(0, len(s) + end)
+            # Negative indices count from the end
+            def relative(n):
+                return max(len(s) + n, 0) if n < 0 else min(n, len(s))
+
+            start = relative(index_arg(args, 0))
+            end = relative(index_arg(args, 1, len(s)))
             return s[start:end]
 
         def split(*args):
@@ -2067,17 +2072,17 @@ class VM:
 
         def startsWith(*args):
             search = to_string(args[0]) if args else ""
-            pos = int(to_number(args[1])) if len(args) > 1 else 0
+            pos = clamp(index_arg(args, 1))
             return s[pos:].startswith(search)
 
         def endsWith(*args):
             search = to_string(args[0]) if args else ""
-            length = int(to_number(args[1])) if len(args) > 1 else len(s)
+            length = clamp(index_arg(args, 1, len(s)))
             return s[:length].endswith(search)
 
         def includes(*args):
             search = to_string(args[0]) if args else ""
-            pos = int(to_number(args[1])) if len(args) > 1 else 0
+            pos = clamp(index_arg(args, 1))
             return search in s[pos:]
 
         def replace(*args):
